@@ -149,8 +149,8 @@ namespace sqf::runtime
 template<> struct std::hash<sqf::runtime::sqfop_binary::key> {
     std::size_t operator()(sqf::runtime::sqfop_binary::key const& s) const noexcept {
         std::size_t h1 = std::hash<std::string>{}(s.name);
-        std::size_t h2 = std::hash<short>{}(s.left_type);
-        std::size_t h3 = std::hash<short>{}(s.right_type);
+        std::size_t h2 = s.left_type.name_hash();
+        std::size_t h3 = s.right_type.name_hash();
 
         h1 ^= (h2 + 0x9e3779b9 + (h1 << 6) + (h1 >> 2));
         h1 ^= (h3 + 0x9e3779b9 + (h1 << 6) + (h1 >> 2));
@@ -160,7 +160,7 @@ template<> struct std::hash<sqf::runtime::sqfop_binary::key> {
 template<> struct std::hash<sqf::runtime::sqfop_unary::key> {
     std::size_t operator()(sqf::runtime::sqfop_unary::key const& s) const noexcept {
         std::size_t h1 = std::hash<std::string>{}(s.name);
-        std::size_t h2 = std::hash<short>{}(s.right_type);
+        std::size_t h2 = s.right_type.name_hash();
         h1 ^= (h2 + 0x9e3779b9 + (h1 << 6) + (h1 >> 2));
         return h1;
     }
